@@ -26,7 +26,7 @@ from .. import alg
 LEVEL = 'other'
 UNITS = ['src/geodesy/ENUConverter.cpp', 'src/geodesy/ECEFConverter.cpp', 'src/geodesy/EarthEllipsoid.cpp', 'src/geodesy/GeodeticCoordinates.cpp']
 ENGINES = 'E-ALG + E-STATE + E-SIB over romea-facts'
-TECHNIQUE = 'namespace-scope shared results and parameter aliasing of the anchor (sweep H1 / H13), frame completeness (raw-matrix writes outside setAnchor), data flow of the altitude into the geodetic-to-ECEF map, value of an alternative path compared with the main path on witnesses of its condition, remembered-result caches (hit-return form) against every writer of what they were computed from, finiteness of every stored member an un-anchored path reads after the constructor and after reset(), sweep of every function read (and its in-repo callees) for frozen function-local statics, single precision inside double computations, lossy copy constructors, presence- or argument-keyed member caches, reference members bound to constructor arguments, loop accumulators that are members, members derived in the constructor and not refreshed by setters, results returned by reference to a member buffer, members filled from an argument under a condition that ignores it, hidden non-virtual base members, self-bound reference members, reductions that accumulate in float; frame state may be read only after isAnchored_ is established on the path (reset keeps the old anchor); C01 formula rules re-evaluated on the witness domain of this property (E6); frames assembled from normalised/crossed vectors are read symbolically; residuals are witness-confirmed before a violation is reported; formula extraction of the frame matrix and exact algebra (orthogonality, determinant, cross-table agreement with the ECEF forward map); path enumeration for the anchoring typestate incl. cache-coherence of skipped updates'
+TECHNIQUE = 'vector conversions evaluated over the affine algebra on an exact rational frame, namespace-scope shared results and parameter aliasing of the anchor (sweep H1 / H13), frame completeness (raw-matrix writes outside setAnchor), data flow of the altitude into the geodetic-to-ECEF map, value of an alternative path compared with the main path on witnesses of its condition, remembered-result caches (hit-return form) against every writer of what they were computed from, finiteness of every stored member an un-anchored path reads after the constructor and after reset(), sweep of every function read (and its in-repo callees) for frozen function-local statics, single precision inside double computations, lossy copy constructors, presence- or argument-keyed member caches, reference members bound to constructor arguments, loop accumulators that are members, members derived in the constructor and not refreshed by setters, results returned by reference to a member buffer, members filled from an argument under a condition that ignores it, hidden non-virtual base members, self-bound reference members, reductions that accumulate in float; frame state may be read only after isAnchored_ is established on the path (reset keeps the old anchor); C01 formula rules re-evaluated on the witness domain of this property (E6); frames assembled from normalised/crossed vectors are read symbolically; residuals are witness-confirmed before a violation is reported; formula extraction of the frame matrix and exact algebra (orthogonality, determinant, cross-table agreement with the ECEF forward map); path enumeration for the anchoring typestate incl. cache-coherence of skipped updates'
 EXPLANATION = ('The nine rotation entries and the translation written by setAnchor are extracted symbolically and checked by exact algebra against orthonormality, det=+1 and '
                'the forward map of ECEFConverter (up = altitude direction, east = longitude derivative); the anchoring protocol (constructor, setAnchor, reset, auto-anchor) is '
                'decided by path enumeration; the conversion overloads by structure.')
